@@ -2,8 +2,9 @@
    instance over R), the hypotheses of the theorems are jointly satisfiable, and the
    recorded findings replayed in the bit-exact binary64 model with the oracle values scipy
    returns: the rounding defect repaired in 9c8aefe (variant Current = the code before it),
-   and the four open ones (ratio overflow, lower-tail cancellation, last-bit non-monotonicity,
-   with_limits keeping the old message). *)
+   the ratio overflow repaired in e638353 and with_limits keeping the old message repaired in
+   d755794 (both replayed in examples named ...legacy...), and the two open ones (lower-tail cancellation, last-bit
+   non-monotonicity). *)
 From Coq Require Import Reals Lra List Bool.
 From Coq Require Import Floats.PrimFloat.
 From PAFCommon Require Import PyFloat.
@@ -40,7 +41,7 @@ Example float_current_tiny_width :
             /\ PrimFloat.ltb (p_hi prior_b) v = true.
 Proof. eexists. split; vm_compute; reflexivity. Qed.
 
-(* ---------- 1b. binary64: the open findings ---------- *)
+(* ---------- 1b. binary64: the open findings, and the legacy of the two repaired after the review ---------- *)
 
 (* last-bit non-monotonicity: UniformPrior(0, 1e6), neighbouring unit values, scipy's ndtr(sqrt2*erfinv(.)) decreases *)
 Definition tbl_m : table :=
@@ -70,7 +71,7 @@ Definition hi_r : float := 0x1.4e718d7d7625ap+664%float.
 Definition stack_r (lv : lu_variant) : list (transform float) :=
   [TPhi; TLinear (tlookup tbl_r 4%positive lo_r) (loguniform_scale FArith (FSpecial tbl_r) lv lo_r hi_r); TLog10].
 
-Example float_ratio_overflow_refuted :
+Example float_ratio_overflow_legacy_refuted :
   fbits_eqb (loguniform_scale FArith (FSpecial tbl_r) LUCurrent lo_r hi_r) infinity = true /\
   fbits_eqb (msg_inverse_transform FArith (FSpecial tbl_r) (stack_r LUCurrent)
                (normal_value_for FArith (FSpecial tbl_r) 0%float 1%float 0x1p-1%float)) infinity = true /\
@@ -83,6 +84,11 @@ Example float_ratio_guard_repairs :
        (msg_inverse_transform FArith (FSpecial tbl_r) (stack_r LURatioGuard)
           (normal_value_for FArith (FSpecial tbl_r) 0%float 1%float 0x1p-1%float)) = Ok 1%float.
 Proof. split; vm_compute; reflexivity. Qed.
+
+(* the code as it is: LogUniformPrior(1e-200, 1e200).value_for(0.5) = 1.0, through message_of *)
+Example float_ratio_overflow_now_returns :
+  prior_value_for FArith (FSpecial tbl_r) Repaired (mkPrior LogUniform 0%float 1%float lo_r hi_r) false 0x1p-1%float = Ok 1%float.
+Proof. vm_compute. reflexivity. Qed.
 
 (* lower-tail cancellation: GaussianPrior(0, 1).value_for(1e-17): 1 - 2*(1 - u) = -1, erfinv(-1) = -inf *)
 Example float_lower_tail_refuted :
@@ -100,7 +106,7 @@ Definition tbl_w : table :=
 Definition pm_w : prior float := mkPrior Uniform 0%float 1%float 0%float 1%float.
 Definition pg_w : prior float := mkPrior Uniform 0%float 1%float 0x1.999999999999ap-3%float 0x1.999999999999ap-2%float.
 
-Example float_with_limits_keeps_message :
+Example float_with_limits_keeps_message_legacy :
   dprior_value_for FArith (FSpecial tbl_w) Repaired pm_w pg_w false 0x1p-1%float = LimitExc /\
   dprior_value_for FArith (FSpecial tbl_w) Repaired pm_w pg_w false 0x1.3333333333333p-2%float = Ok 0x1.3333333333333p-2%float.
 Proof. split; vm_compute; reflexivity. Qed.
